@@ -3,6 +3,7 @@ import Tahoe.Immutable.LemmasLayout
 import Tahoe.Immutable.LemmasPipeline
 import Tahoe.Immutable.Examples
 import Tahoe.Immutable.LemmasUploadable
+import Tahoe.Immutable.LemmasRS256
 /-! C01 — immutable upload/download round-trip (property theorems; helper lemmas live in
     `Tahoe/Immutable/Lemmas*.lean`).
 
@@ -13,11 +14,11 @@ import Tahoe.Immutable.LemmasUploadable
 | uploading any byte string as an immutable file and reading it back with the returned read-cap yields exactly the uploaded bytes | `upload_download` (bytes given directly) and `upload_download_any_source` (bytes supplied by any `IUploadable` keeping the contract `Supplies` + `StableKey`; the cap's key is the one returned by the *second* `get_encryption_key()` call); `stale_key_breaks_roundtrip` shows the key-stability hypothesis is necessary |
 | … for every file size: empty, literal-sized | literal files: C05 `lit_threshold`, `literal_any_source`, C04 `read_slice_literal`; the empty file is literal. In the CHK pipeline `size = 0` is an error in model and code alike (`sizes_agree`: both raise ZeroDivisionError) and is unreachable through `Uploader.upload` |
 | … on and across segment boundaries | `upload_download` (no size bound); arithmetic: `sizes_agree`, `sizes_consistent` |
-| … every valid k-of-N encoding and segment size | `upload_download` (all `1 ≤ k`, `n`, `maxSeg > 0`, every codec with the MDS law for `(k, n)`); `happy ≤ N` is C06 and plays no role in the bytes |
+| … every valid k-of-N encoding and segment size | `roundtrip_rs256`, `roundtrip_rs256_any_source`: **no hypothesis on the code** — the codec is zfec's Reed–Solomon code `rs256` (C36's transcription) and the MDS law is C36's theorem `rs256_mds`, for all `1 ≤ k ≤ N ≤ 256`; codec-parametric versions `upload_download`, `upload_download_any_source` (every codec with the MDS law).  Remaining tie for FEC: zfec's C routines ↔ the model's generator — correspondence (C36 harness byte-exact blocks/matrices; here: all N share data sections of real uploads vs `rs256Codec`, op `sharesrs`); `happy ≤ N` is C06 and plays no role in the bytes |
 | … share files on disk: offset tables v1/v2, section sizes, what the reader fetches | `offsets_wellformed`, `layout_constants` |
 | … every order in which storage servers answer requests | at model level: `upload_download` quantifies over `pick` (any k distinct share numbers per segment = whichever blocks arrived first) and C04 `read_slice` over guessed/known segment size; the asynchronous machinery that realises `pick` (ShareFinder, SegmentFetcher, Share) is **correspondence/monitor only** (seeded delivery orders in harness/props/c01.py); termination is C03/C46 |
 | grids of 1..N+3 honest servers | **monitor only** (server selection is C06/C07) |
-| hash trees / UEB hash written by the encoder and checked by the downloader | **not covered here** (C02, C35); zfec and AES are parameters with explicit laws |
+| hash trees / UEB hash written by the encoder and checked by the downloader | **not covered here** (C02, C35); AES-CTR is a parameter (keystream xor); the erasure code is no longer an assumption (`rs256_mds`) |
 -/
 namespace Tahoe.C01
 open Tahoe.Immutable Tahoe.Immutable.Sizes Tahoe.Immutable.Layout Tahoe.Immutable.Pipeline
@@ -249,5 +250,36 @@ theorem stale_key_breaks_roundtrip :
   refine ⟨{ size := 3, read := fun pos len => [(([1, 2, 3] : List UInt8).drop pos).take len],
             key := fun i => if i = 0 then [1] else [1, 1] }, [1, 2, 3], ⟨rfl, fun pos len => by simp⟩, ?_⟩
   refine ⟨_, rfl, by decide⟩
+
+/-- `roundtrip_rs256`: the round trip with zfec's code and **no assumption on the erasure code**.  The codec is
+    `rs256Codec` = C36's transcription `Tahoe.Codec.rs256` of zfec's Reed–Solomon code over GF(2^8); its MDS law
+    is C36's theorem `rs256_mds`.  For every non-empty plaintext, every `1 ≤ k ≤ n ≤ 256`, `maxSeg > 0`, key,
+    keystream and every per-segment choice of `k` distinct shares, upload succeeds and download returns the
+    plaintext.  (What is left of FEC outside the proof: that zfec's C code computes this code — correspondence.) -/
+theorem roundtrip_rs256 {Key : Type} (ks : Key → Nat → Block16) (key : Key) (pt : List UInt8)
+    (k n maxSeg : Nat) (hk : 1 ≤ k) (hkn : k ≤ n) (hn : n ≤ 256) (hmax : 0 < maxSeg) (hpt : 0 < pt.length)
+    (pick : Nat → List Nat) (hpick : ∀ s, ValidIds k n (pick s)) :
+    ∃ u, upload ks rs256Codec key pt k n maxSeg = .ok u ∧ download ks rs256Codec u pick = .ok pt :=
+  upload_download ks rs256Codec key pt k n maxSeg hk hmax hpt (rs256Codec_lawful k n hk hkn hn) pick hpick
+
+/-- `roundtrip_rs256_any_source`: the same for bytes supplied by any contract-keeping uploadable -/
+theorem roundtrip_rs256_any_source (ks : List UInt8 → Nat → Block16) (s : Uploadable.Source)
+    (data : List UInt8) (k n maxSeg chunk : Nat)
+    (hs : Uploadable.Supplies s data) (hkey : Uploadable.StableKey s) (hch : 0 < chunk)
+    (hk : 1 ≤ k) (hkn : k ≤ n) (hn : n ≤ 256) (hmax : 0 < maxSeg) (hd : 0 < data.length)
+    (pick : Nat → List Nat) (hpick : ∀ seg, ValidIds k n (pick seg)) :
+    ∃ u, Uploadable.uploadVia ks rs256Codec s k n maxSeg chunk = .ok u ∧ u.key = s.key 1 ∧
+      download ks rs256Codec u pick = .ok data :=
+  upload_download_any_source ks rs256Codec s data k n maxSeg chunk hs hkey hch hk hmax hd
+    (rs256Codec_lawful k n hk hkn hn) pick hpick
+
+/-- 2-of-3 with zfec's code: 5 bytes in 2-byte segments, each segment decoded from a different pair of shares
+    (including the pair without share 0) -/
+example :
+    (upload toyKs rs256Codec 5 [1, 2, 3, 4, 5] 2 3 2).toOption.map
+        (fun u => (u.ueb.numSegments, u.shares.map List.length,
+                   (download toyKs rs256Codec u (fun s => [[0, 1], [2, 1], [0, 2]].getD (s % 3) [])).toOption))
+      = some (3, [3, 3, 3], some [1, 2, 3, 4, 5]) := by
+  decide +kernel
 
 end Tahoe.C01
